@@ -1202,3 +1202,25 @@ func init() {
 	addControl(control{Prop: "C06", Name: "object-read-as-a-list-of-one", Rule: "R06l", Kind: "mutant", Quick: true,
 		File: "reify.go", Old: "	if sub, ok := v.(cfgSub); ok {\n		return sub.c.fields.array(), nil\n	}\n	if ref, ok := v.(*cfgDynamic); ok {", New: "	if sub, ok := v.(cfgSub); ok {\n		if arr := sub.c.fields.array(); len(arr) > 0 || len(sub.c.fields.dict()) == 0 {\n			return arr, nil\n		}\n		return []value{sub}, nil\n	}\n	if ref, ok := v.(*cfgDynamic); ok {", Expect: "R06l/ucfg.castArr"})
 }
+
+func init() {
+	// required looks behind pointers (repaired after the round-11 hunt, C04 H3)
+	addControl(control{Prop: "C04", Name: "required-decides-on-the-outermost-pointer", Rule: "R04i", Kind: "mutant", Quick: true,
+		File: "validator.go", Old: "	val := chaseValue(reflect.ValueOf(v))\n	if (val.Kind() == reflect.Ptr || val.Kind() == reflect.Interface) && val.IsNil() {\n		return ErrRequired\n	}\n", New: "	val := reflect.ValueOf(v)\n	if val.Kind() == reflect.Ptr && val.IsNil() {\n		return ErrRequired\n	}\n", Expect: "R04i/ucfg.validateRequired"})
+}
+
+func init() {
+	// tryValidate unwraps what an interface or a chain of pointers holds (repaired after the round-11 hunt, C04 H2)
+	addControl(control{Prop: "C04", Name: "validate-asked-of-the-holder", Rule: "R04m", Kind: "mutant", Quick: true,
+		File: "validator.go", Old: "	for val.Kind() == reflect.Interface ||\n		(val.Kind() == reflect.Ptr && val.Type().Elem().Kind() == reflect.Ptr) {\n		if val.IsNil() {\n			return nil\n		}\n		val = val.Elem()\n	}\n\n	t := val.Type()\n", New: "	t := val.Type()\n", Expect: "R04m/ucfg.tryValidate"})
+	addControl(control{Prop: "C04", Name: "validate-unwraps-with-the-chase-helper", Rule: "R04m", Kind: "refactor",
+		File: "validator.go", Old: "	for val.Kind() == reflect.Interface ||\n		(val.Kind() == reflect.Ptr && val.Type().Elem().Kind() == reflect.Ptr) {\n		if val.IsNil() {\n			return nil\n		}\n		val = val.Elem()\n	}\n\n	t := val.Type()\n", New: "	for val.Kind() == reflect.Interface ||\n		(val.Kind() == reflect.Ptr && val.Type().Elem().Kind() == reflect.Ptr) {\n		if val.IsNil() {\n			return nil\n		}\n		val = chaseValueInterfaces(val.Elem())\n	}\n\n	t := val.Type()\n"})
+}
+
+func init() {
+	// round 12 (C07-r12): hashing data — positive control for a rule whose expected count is zero
+	addControl(control{Prop: "C07", Name: "list-entries-hashed-as-map-keys", Rule: "R07t", Kind: "mutant", Quick: true,
+		File: "validator.go", Old: "func validateArray(val reflect.Value, opts *options) error {\n	for i := 0; i < val.Len(); i++ {\n", New: "func validateArray(val reflect.Value, opts *options) error {\n	seen := map[interface{}]bool{}\n	for i := 0; i < val.Len(); i++ {\n		if e := chaseValue(val.Index(i)); e.IsValid() && e.CanInterface() {\n			seen[e.Interface()] = true\n		}\n", Expect: "R07t/ucfg.validateArray"})
+	addControl(control{Prop: "C07", Name: "list-entries-hashed-under-a-comparable-test", Rule: "R07t", Kind: "refactor",
+		File: "validator.go", Old: "func validateArray(val reflect.Value, opts *options) error {\n	for i := 0; i < val.Len(); i++ {\n", New: "func validateArray(val reflect.Value, opts *options) error {\n	seen := map[interface{}]bool{}\n	for i := 0; i < val.Len(); i++ {\n		if e := chaseValue(val.Index(i)); e.IsValid() && e.CanInterface() && e.Comparable() {\n			seen[e.Interface()] = true\n		}\n"})
+}
